@@ -5,10 +5,20 @@ import re
 
 
 class Box:                       # a variable cell; `var &r = x`, `:=`, parameters and captures share boxes
-    __slots__ = ("v", "const")
+    # two levels, as in Boxed_Value: the record (this Box: flags + which object) and the object (a one-element list holding the value).
+    # `x := y` copies y's record into x's: both records then name one object
+    __slots__ = ("o", "const")
 
     def __init__(self, v, const=False):
-        self.v, self.const = v, const
+        self.o, self.const = [v], const
+
+    @property
+    def v(self):
+        return self.o[0]
+
+    @v.setter
+    def v(self, x):
+        self.o[0] = x
 
 
 class Thrown(Exception):         # script `throw(x)` or a Boxed_Value thrown by a callback
@@ -186,15 +196,18 @@ class Interp:
             rhs = self.ev(n[3])
             lhs_is_ref = n[2][0] == "ref"
             if lhs_is_ref:
-                self.declare(n[2][1], rhs)                # `var &r = x`: r IS x
+                b = Box(None, rhs.const)                  # `var &r = x`: r gets its own record naming x's object
+                b.o = rhs.o
+                self.declare(n[2][1], b)
                 return rhs
             lhs = self.ev(n[2])
             if lhs.const:
                 raise EvalError("assignConst")
             o = n[1]
             if o == ":=":
-                if lhs.v is UNDEF or type(lhs.v) == type(rhs.v):
-                    raise NotImplementedError(":= is not generated")
+                if lhs.v is UNDEF or (type(lhs.v) == type(rhs.v) and type(lhs.v) in (int, bool, str)):
+                    lhs.o, lhs.const = rhs.o, rhs.const       # `lhs.assign(rhs)`: the lhs record now names the rhs object
+                    return rhs
                 raise EvalError("mismatched")
             if o == "=":
                 if lhs.v is UNDEF or type(lhs.v) == type(rhs.v):
